@@ -53,6 +53,9 @@ def adam_rule(p, g, st, hp, t, decoupled):
     m = hp["b1"] * st.get("m", 0) + (1.0 - hp["b1"]) * g
     v = hp["b2"] * st.get("v", 0) + (1.0 - hp["b2"]) * g * g
     st["m"], st["v"] = m, v
+    # PyTorch keeps the step index per parameter (state['step']): it counts the updates this parameter has received, so a parameter
+    # that joins late (no gradient / frozen during earlier steps) starts its bias correction at 1
+    t = st["t"] = st.get("t", 0) + 1
     mh = m / (1.0 - hp["b1"] ** t)
     vh = v / (1.0 - hp["b2"] ** t)
     return p - (hp["lr"] * mh) / (_sqrt(vh) + hp["eps"])
@@ -70,6 +73,7 @@ def _sqrt(x):
 
 
 EVENTS = ["bw0", "bw1", "bwall", "zero", "step"]
+TOGGLES = ["thaw_f", "freeze0", "thaw0"]      # pf.requires_grad = True; p0.requires_grad = False / True
 
 
 class OptCase:
@@ -142,6 +146,12 @@ class OptCase:
             w["opt"].zero_grad()
         elif ev == "step":
             w["opt"].step()
+        elif ev == "thaw_f":
+            w["p"][2].requires_grad = True
+        elif ev == "freeze0":
+            w["p"][0].requires_grad = False
+        elif ev == "thaw0":
+            w["p"][0].requires_grad = True
         return None
 
     def run(self, seed):
@@ -180,6 +190,8 @@ class OptCase:
             exp_data = [np.array(p.data, dtype=object) for p in P]
             exp_grad = [None, None, None]
             state = [{}, {}, {}]
+            req = [True, True, False]           # ghost: which parameters require grad now / ever did
+            ever = [True, True, False]
             data_obj = [p.data for p in P]
             out_data, out_snap = w["outsider"].data, w["outsider"].data.copy()
             t = 0
@@ -189,13 +201,18 @@ class OptCase:
                 # ---- spec
                 if ev.startswith("bw"):
                     pass
+                elif ev in TOGGLES:
+                    i = 2 if ev == "thaw_f" else 0
+                    req[i] = ev != "freeze0"
+                    ever[i] = ever[i] or req[i]
                 elif ev == "zero":
-                    for i in (0, 1):
-                        exp_grad[i] = np.zeros(P[i].shape, dtype=object)
+                    for i in (0, 1, 2):
+                        if req[i]:
+                            exp_grad[i] = np.zeros(P[i].shape, dtype=object)
                 elif ev == "step":
                     t += 1
-                    for i in (0, 1):
-                        if exp_grad[i] is None:
+                    for i in (0, 1, 2):
+                        if exp_grad[i] is None or not req[i]:
                             continue
                         if self.kind == "SGD":
                             exp_data[i] = sgd_rule(exp_data[i], exp_grad[i], state[i], hp, t)
@@ -208,7 +225,7 @@ class OptCase:
                     break
                 if contrib:
                     for i, c in contrib.items():
-                        if i < 2:
+                        if req[i]:
                             base = exp_grad[i] if exp_grad[i] is not None else np.zeros(P[i].shape, dtype=object)
                             exp_grad[i] = base + c
                 # ---- contract after the event
@@ -220,7 +237,7 @@ class OptCase:
                     if tuple(p.data.shape) != tuple(exp_data[i].shape):
                         fail = (api + ".shape_unchanged", "parameter %d changed shape to %s" % (i, p.data.shape), {**info, "param": i})
                         break
-                    clause = ".frozen_parameter_unchanged" if i == 2 else (".follows_update_rule" if ev == "step" else ".parameters_unchanged")
+                    clause = ".frozen_parameter_unchanged" if not req[i] else (".follows_update_rule" if ev == "step" else ".parameters_unchanged")
                     for k in np.ndindex(*p.shape):
                         a, b = S.of(p.data[k]), S.of(exp_data[i][k])
                         v = prove_equal(a, b, list(sess.pre) + sess.relevant_axioms([a.n, a.d, b.n, b.d]), timeout_ms=20000)
@@ -238,7 +255,7 @@ class OptCase:
                 if fail:
                     break
                 # gradients: only requiring parameters ever hold one; zero_grad zeroes exactly those
-                if P[2]._grad is not None:
+                if any(P[i]._grad is not None for i in range(3) if not ever[i]):
                     fail = (api + ".frozen_parameter_gets_no_grad", "the frozen parameter holds a gradient after event %d (%s)" % (ei, ev), {**info, "param": 2})
                     break
                 bump("executed")
@@ -279,7 +296,7 @@ class OptCase:
                     self._apply(w, ev)
                 got = [np.array(p.data, dtype=np.float64) for p in w["p"]]
                 same_obj = [id(p.data) == i for p, i in zip(w["p"], ids)]
-                frozen_grad = w["p"][2]._grad is not None
+                frozen_grad = w["p"][2]._grad is not None and "thaw_f" not in self.events[: upto + 1]
         except Exception as e:
             rep.update({"reproduced": True, "native_exception": "%s: %s" % (type(e).__name__, str(e)[:300])})
             return rep
@@ -307,6 +324,8 @@ class OptCase:
 
 
 def _api(kind, ev):
+    if ev in TOGGLES:
+        return "Tensor.requires_grad@setter"
     if ev == "step":
         return OPT + kind + ".step"
     if ev == "zero":
@@ -332,7 +351,10 @@ def option_sets(kind):
 def histories(tier, seed):
     hs = [("bwall", "step"), ("bwall", "step", "bwall", "step"), ("bwall", "step", "zero", "bwall", "step"), ("bw0", "step", "bwall", "step"),
           ("zero", "bw0", "bw0", "step", "bw1", "step"), ("bwall", "bwall", "step", "step"), ("bwall", "step", "bw0", "step", "zero", "step"),
-          ("step", "bwall", "step"), ("zero", "step", "bwall", "step")]
+          ("step", "bwall", "step"), ("zero", "step", "bwall", "step"),
+          # parameters whose flag changes after the optimizer was built: un-freezing (gradual un-freezing), freezing, and both
+          ("bwall", "step", "thaw_f", "bwall", "step"), ("thaw_f", "bwall", "step", "zero", "bwall", "step"), ("bwall", "step", "freeze0", "bwall", "step", "thaw0", "step"),
+          ("freeze0", "zero", "bwall", "step", "thaw0", "bwall", "step"), ("bw0", "step", "bw0", "step", "bwall", "step")]
     rng = random.Random(seed)
     n = 6 if tier == "quick" else 40
     for _ in range(n):
@@ -340,7 +362,7 @@ def histories(tier, seed):
         h = []
         steps = 0
         while len(h) < L:
-            e = rng.choice(EVENTS)
+            e = rng.choice(EVENTS + TOGGLES if _ % 2 else EVENTS)
             if e == "step":
                 if steps >= (3 if tier == "quick" else 4):
                     continue
@@ -357,10 +379,11 @@ def main(tier="quick", seed=0, procs=None, only=None):
     run.assume("reals", "numpy", "shims", "atoms", "engines")
     run.assume("(M3, paper lemma) the per-step contract with fully symbolic parameter / gradient / hyper-parameter values + the frame conditions of backward and zero_grad give the "
                "trajectory over every history; histories themselves are enumerated to the stated bound")
-    run.assume("the step index t of the published algorithms is the optimisation-step counter; a parameter whose gradient is None at a step is skipped (unchanged parameter and state)")
+    run.assume("the step index t of Adam/AdamW is PyTorch's per-parameter state['step'] (the number of updates the parameter has received); a parameter that does not require grad or whose "
+               "gradient is None at a step is skipped (unchanged parameter and state)")
     run.bounds = {"parameters": "p0 (2,), p1 (1,2) requiring grad, pf (2,) frozen, plus a tensor not given to the optimizer", "hyper-parameters": "symbolic lr>0, wd>0, 0<momentum<1, 0<dampening<1, "
                   "0<beta<1, eps>0; every boolean option combination the constructors accept (momentum=0/!=0, dampening=0/!=0, wd=0/!=0, nesterov, maximize)",
-                  "histories": "9 hand-written interleavings (several backward per step, step without zero_grad, step before any backward, partial gradients) + %d seeded of length 3-6, <=%d steps"
+                  "histories": "14 hand-written interleavings (several backward per step, step without zero_grad, step before any backward, partial gradients, parameters frozen / un-frozen after construction) + %d seeded of length 3-6, <=%d steps"
                                % (6 if tier == "quick" else 40, 3 if tier == "quick" else 4)}
     run.rule = "one case = (optimizer, option set, history); after every event every parameter element is one equality obligation against the published rule"
     cases = []
